@@ -9,7 +9,41 @@ CHECKS = {}
 NOT_APPLICABLE = {}
 
 
+# what the third / fourth rounds added to a check's level text (applied to the texts below)
+UPDATES = {
+    "C03": [("Sampled, not exhaustive.", "Every probed call shape is also re-issued from inside a router method (recurse / "
+             "call_next, statically shaped and with * / **) and must be served like the direct call. Sampled, not exhaustive.")],
+    "C07": [("(successive resolutions with the winner removed). Sampled.", "(successive resolutions with the winner removed); "
+             "f.next also from methods with self and with keywords. Sampled. Two recorded known findings (F61: a tied peer of the "
+             "caller is skipped; F62: a caller excluded by its value condition is not treated as a fresh call).")],
+    "C10": [("One recorded known finding (F20", "Plus the full pair table of two parametrised condition families (Any wildcard). "
+             "One recorded known finding (F20")],
+    "C14": [("plus a metamorphic check that removing every type[...] method never changes ordinary calls. Sampled.",
+             "plus metamorphic checks: removing every type[...] method never changes ordinary calls, and the same call forwarded "
+             "from a router method (recurse / call_next, static and starred, functions and methods with self) resolves like the "
+             "direct call. Annotations include Any and unions inside type[...] and a metaclass. Sampled.")],
+    "C18": [("afterwards every probe through both entry points must equal a fresh function over the registered methods or be a "
+             "configuration error.", "afterwards every probe - through the dispatch function, the Ovld object and f.next - must "
+             "equal a fresh function over the registered methods or be a configuration error, the function must keep following "
+             "later changes (unregister / register of the newest method), and handlers obtained before a failing change must not "
+             "dispatch over its table.")],
+    "C19": [("over 7 racing scenarios (first calls, cache misses, call_next chains,", "over 10 racing scenarios (first calls, cache "
+             "misses, different call shapes, call_next chains,"),
+            ("sampled schedules with up to 3 pre-emptions,", "two-pre-emption schedules on the racing first calls, sampled "
+             "schedules with up to 3 pre-emptions,"),
+            ("Locks found on the objects under test are replaced by cooperative ones", "Locks the library creates (at "
+             "construction or lazily during the race) are cooperative ones")],
+    "C20": [("must consult zero hooks when repeated, including nested recurse / call_next. Sampled.", "- or that only dispatches "
+             "on argument-type combinations earlier calls resolved, whatever the order its keywords are written in - must consult "
+             "zero hooks, including nested recurse / call_next; refused and no-op change operations do not count as changes. "
+             "Sampled.")],
+}
+
+
 def check(pid, category, text, note, technique, design_ref):
+    for a, b in UPDATES.get(pid, []):
+        assert a in text, (pid, a)
+        text = text.replace(a, b)
     CHECKS[pid] = dict(category=category, text=text, note=note, technique=technique, design_ref=design_ref)
 
 
